@@ -14,7 +14,9 @@ ASSUMPTIONS = ["options are given as separate short arguments (getopt's bundling
                "circular values followed by -E are not generated (jansson's json_equal does not terminate on them)"]
 BUDGET = {"quick": 600, "thorough": 3600}
 
-VALUES = [None, True, 1, 1.5, "a", "YQ", [], [1, 2], {}, {"a": 1}, [[3], {"b": [4]}], "eyJhIjoxfQ", {"a": {"b": 2}, "c": [5, 6]}]
+VALUES = [None, True, 1, 1.5, "a", "YQ", [], [1, 2], {}, {"a": 1}, [[3], {"b": [4]}], "eyJhIjoxfQ", {"a": {"b": 2}, "c": [5, 6]},
+          # members given in non-sorted order (every output option prints objects with sorted keys, at every depth)
+          {"b": 1, "a": 2}, [{"z": 1, "a": {"y": 0, "b": [{"d": 1, "c": 2}]}}], {"k": {"z": 1, "a": 2}, "b": 0}]
 NAMES = ["a", "b", "0", "1", "-1", "-3", "9", "x y", ""]
 COUNTS = [0, 1, 2, 5]
 TCOUNTS = [0, 1, 2, -1, -2, 7]
@@ -101,6 +103,7 @@ def gen(ctx):
     th = ctx.tier == "thorough"
     progs = []
     pushes = [[], [("j", [1, 2, 3])], [("j", {"a": 1, "b": [2]})], [("j", "str")], [("j", [1, 2, 3]), ("j", {"k": 0})],
+              [("j", [{"b": 1, "a": 2}, {"z": {"y": 1, "x": 2}}])], [("j", {"m": {"z": 1, "a": 2}, "c": [{"q": 1, "p": 2}]})],
               [("j", {"a": 1}), ("j", [7, 8, 9, 10])], [("j", 5), ("j", 5)], [("j", [[1], [2]]), ("g", "0")]]
     maxlen = 3 if th else 2
     for pre in pushes:
